@@ -11,7 +11,19 @@ FIELD_CLASSES = [
     "0", "1", "2", "3", "4", "5", "9", "17", "254", "255", "256", "-1", "1000000000000000000000000000000",
     "+1", "01", "1_0", "1__0", "_1", " 1 ", "\t2", "1.0", "1e2", "abc", "", "٣", "\xa03", "\x1c1",
     "0x1", "1 2", "９", "--1", "+", "-", "4" * 300, "0" * 310 + "7",
+    "0255", "+255", "2_5_5", " 255", "255 ", "-0", "+0", "00", "03", "+3", "004", "+1 ", "0_1",
 ]
+
+
+def respell(rng, v: int) -> str:
+    """Another spelling that Python's int() reads as the same number."""
+    s = str(v)
+    forms = ["0" + s, "00" + s, "+" + s, " " + s, s + " ", "\t" + s, " +0" + s + " ", "0_" + s]
+    if len(s) >= 2:
+        forms += ["_".join(s), s[0] + "_" + s[1:]]
+    if v == 0:
+        forms += ["-0", "-00"]
+    return rng.choice(forms)
 # CPython's int/str digit limit: costly in the extracted model (binary positives), so only a few lines
 HEAVY_CLASSES = ["4" * 4300, "5" * 4301, "0" * 4300 + "1", "1" + "_1" * 4299]
 SMALL_CLASSES = ["0", "1", "3", "4", "255", "256", "-1", "x", "", " 2", "5"]
@@ -61,6 +73,15 @@ def gen_lines(ctx):
         for _ in range(rng.choice([0, 0, 1, 1, 2])):
             i = rng.randrange(5)
             fs[i] = rng.choice(FIELD_CLASSES)
+        lines.append(";".join(fs) + rng.choice(TAILS))
+    # every numeric field in a spelling other than the canonical one (the decoder reads
+    # fields with int(): the cross-field rules must see the numbers, not the text);
+    # skeletons are NOT filtered, so rule-violating combinations are respelled too
+    for _ in range(ctx.budget(6000, 60000)):
+        vals = [rng.choice([0, 1, 9, 254, 255]), rng.choice([0, 1, 7, 255, 255]), rng.randint(0, 4), rng.randint(0, 1), rng.choice([0, 3, 4, 17, 49])]
+        fs = [str(x) for x in vals] + [rng.choice(PAYLOAD_CLASSES)]
+        for i in rng.sample(range(5), rng.choice([1, 1, 2, 3])):
+            fs[i] = respell(rng, vals[i])
         lines.append(";".join(fs) + rng.choice(TAILS))
     for h in HEAVY_CLASSES:
         for pos in (0, 4):
